@@ -31,7 +31,7 @@ def step_of(state_text, label):
     m = re.match(r'(\w+?)T?(?:\((.*)\))?$', label)
     name, args = m.group(1), [a.strip().strip('"') for a in (m.group(2) or "").split(",") if a.strip()]
     table = {"Connect": "connect", "DialOk": "dialok", "DialFail": "dialfail", "BackoffDone": "backoff",
-             "Disconnect": "disconnect", "ScShutdown": "scshutdown", "UpdAddrs": "updaddrs", "ChanClose": "close", "Deliver": "deliver"}
+             "Disconnect": "disconnect", "ScShutdown": "scshutdown", "UpdAddrs": "updaddrs", "StaleFail": "stalefail", "ChanClose": "close", "Deliver": "deliver"}
     if name not in table:
         raise Inconclusive("unknown action label " + label)
     s = {"a": table[name]}
@@ -82,6 +82,7 @@ def run(ctx):
     ctx.mc("ConnectivityMC", "ConnectivityMC.cfg", workers=8)
     ctx.neg("ConnectivityMC", "ConnectivityNeg.cfg", expect="I_Order", workers=2)
     ctx.neg("ConnectivityMC", "ConnectivityNeg3.cfg", expect="I_Transitions", workers=2)   # UpdateAddresses abandons the backoff
+    ctx.neg("ConnectivityMC", "ConnectivityNeg4.cfg", workers=2)   # the outcome of an abandoned attempt is published
     ctx.mc("ConnectivityWaitMC", "ConnectivityWaitMC.cfg", workers=8)
     ctx.neg("ConnectivityWaitMC", "ConnectivityWaitNeg1.cfg", expect="I_NoMissedChange", workers=2)
     ctx.neg("ConnectivityWaitMC", "ConnectivityWaitNeg2.cfg", expect="I_NoMissedChange", workers=2)
